@@ -257,3 +257,119 @@ func VerifC01Crash() { vCrashScenario(0, false) }
 func VerifC02Crash() { vCrashScenario(1, false) }
 func VerifC03Crash() { vCrashScenario(2, false) }
 func VerifC04Power() { vCrashScenario(0, true) }
+
+// C02 (b): a crash during recovery itself. Process 2 acknowledges writes B and C (separate
+// transactions, no checkpoint) and is killed; process 3 starts, replays - and is killed before any
+// one of its file-mutating calls; process 4 starts and replays what is left. Replay may apply a
+// transaction that had already reached the primary file a second time (the recorded finding for
+// variable-length records), but an interrupted recovery must not multiply the damage: no record may
+// be present more than twice, none may be lost, nothing alien may appear; fixed-length buckets hold
+// exactly the last acknowledged value.
+func VerifC02CrashDuringRecovery() {
+	rt.Opt("clock", 1)
+	rt.Opt("crash", 1)
+	rt.Stub("github.com/alpacahq/marketstore/v4/executor.GetTimeFromTicks", vStubGetTimeFromTicksMemo)
+	rt.Stub("github.com/alpacahq/marketstore/v4/utils/io.GetIntervalTicks32Bit", vStubIntervalTicks)
+	root := rt.TempDir()
+	defer rt.Cleanup()
+	variable := rt.Fix(rt.Int("variable", 0, 1)) == 1
+	key := "AAPL/1D/OHLCV"
+	if variable {
+		key = "AAPL/1D/TICK"
+	}
+	tbk := io.NewTimeBucketKey(key)
+	base := time.Date(2020, 3, 2, 0, 0, 0, 0, time.UTC).Unix()
+	var ws [3]vWrite
+	names := [3][3]string{{"slotA", "secA", "vA"}, {"slotB", "secB", "vB"}, {"slotC", "secC", "vC"}}
+	for i := range ws {
+		ws[i].slot = base
+		if i > 0 {
+			ws[i].slot = base + 86400*rt.Fix(rt.Int(names[i][0], 0, 1))
+		}
+		ws[i].sec = rt.Int(names[i][1], 0, 86399)
+		ws[i].v = rt.Int32(names[i][2])
+	}
+	rt.Assume(ws[0].v != ws[1].v && ws[0].v != ws[2].v && ws[1].v != ws[2].v)
+	e1 := vStart(root, 11)
+	rt.Assert(vDo(e1, tbk, variable, ws[0]) == nil, "write-accepted")
+	rt.Assert(e1.wf.CreateCheckpoint() == nil, "checkpoint-ok")
+	e2, err := vRestart(root, 22)
+	rt.Assert(err == nil, "restart-succeeds")
+	rt.Assert(vDo(e2, tbk, variable, ws[1]) == nil, "write-accepted")
+	rt.Assert(vDo(e2, tbk, variable, ws[2]) == nil, "write-accepted")
+	rt.Reach("entered")
+	// process 2 is killed here (both writes acknowledged, no checkpoint); process 3 recovers and is killed
+	crashed := rt.Crashable("p3", func() {
+		vRestart(root, 33)
+	})
+	if crashed {
+		rt.Reach("crashed")
+	}
+	e4, err := vRestart(root, 44)
+	rt.Assert(err == nil, "restart-succeeds")
+	cs, qerr := e4.queryAll(tbk)
+	rt.Assert(qerr == nil, "query-after-restart-without-error")
+	rows := vRowsOf(cs, variable)
+	rt.Reach("queried")
+	if !variable {
+		for s := int64(0); s <= 1; s++ {
+			slot := base + 86400*s
+			last := -1
+			for i := 0; i < 3; i++ {
+				if ws[i].slot == slot {
+					last = i
+				}
+			}
+			var got []vRow
+			for _, r := range rows {
+				if r.sec == slot {
+					got = append(got, r)
+				}
+			}
+			if last >= 0 {
+				rt.Assert(len(got) == 1 && got[0].v == ws[last].v, "last-acknowledged-value-exactly-once")
+			} else {
+				rt.Assert(len(got) == 0, "no-phantom-row")
+			}
+		}
+		return
+	}
+	var cnt [3]int
+	alien := 0
+	for _, r := range rows {
+		hit := false
+		for i := 0; i < 3; i++ {
+			if r.v == ws[i].v {
+				cnt[i]++
+				hit = true
+			}
+		}
+		if !hit {
+			alien++
+		}
+	}
+	rt.Assert(alien == 0, "only-issued-records")
+	maxc, present := 0, true
+	for i := 0; i < 3; i++ {
+		if cnt[i] > maxc {
+			maxc = cnt[i]
+		}
+		if cnt[i] == 0 {
+			present = false
+		}
+	}
+	// recorded findings of the pinned tree: (1) a kill right before the 24-byte index entry of a
+	// continuation write (here: issued by the replay) leaves the old index over re-sorted data;
+	// (2) replay appends a variable-length transaction whose primary write had already happened once
+	// more; (3) a recovery killed between re-applying a transaction and checkpointing it makes the
+	// next recovery append it yet again (three copies)
+	op := rt.CrashOp("p3")
+	beforeIndexWrite := crashed && strings.HasPrefix(op, "write ") && strings.Contains(op, ".bin ") && strings.HasSuffix(op, " len=24")
+	rt.Region("C01-variable-crash-between-in-place-data-write-and-index-write", beforeIndexWrite)
+	rt.Region("C02-variable-replay-appends-again", present && maxc == 2)
+	rt.Region("C02-interrupted-recovery-appends-again", crashed && present && maxc == 3)
+	for i := 0; i < 3; i++ {
+		rt.Assert(cnt[i] >= 1, "acknowledged-record-present")
+		rt.Assert(cnt[i] == 1, "acknowledged-record-exactly-once")
+	}
+}
